@@ -42,6 +42,7 @@ async def execute(net, hyg, plan):
     for i in range(plan.get("dir_entries", 0)):
         tree[f"/d/e{i:03d}"] = b"x" * i
     w = W.World(net, tree=tree, block_size=bs, backend=plan.get("backend", "memory"), **(plan.get("server_kwargs") or {}))
+    net.loop.exec_delay = plan.get("exec_delay", 0.0)
     await w.start()
     try:
         bd = plan.get("backend_delay")
@@ -125,7 +126,8 @@ async def execute(net, hyg, plan):
             if not state["abor_sent"]:
                 state["abor_sent"] = True
                 state["abor_at"] = len(net.events)
-                p.send("ABOR")
+                # plan["tail"]: further commands written in the same piece as the ABOR (a second ABOR, a PWD)
+                p.send("\r\n".join(["ABOR"] + list(plan.get("tail", []))))
 
         def chain(i, fn):
             if i <= 0:
@@ -182,6 +184,17 @@ async def execute(net, hyg, plan):
                 return True
             return False
 
+        tail_codes = [{"ABOR": "226", "PWD": "257", "NOOP": "502"}[t] for t in plan.get("tail", [])]
+        if tail_codes:
+            # every command behind the ABOR is answered after it, in the order sent; a second ABOR finds nothing left to abort
+            mon["tail_in_order"] = 1
+            if seq[len(seq) - len(tail_codes):] == tail_codes and len(seq) > len(tail_codes):
+                seq = seq[:len(seq) - len(tail_codes)]
+            elif "EOF" not in seq:
+                viol.append({"key": "commands-behind-abor-not-answered-in-order:" + "+".join(plan["tail"]),
+                             "msg": f"{pos} 'ABOR' + {plan['tail']} written in one piece after event {k}: replies after the transfer "
+                                    f"command were {seq}, the last {len(tail_codes)} should be {tail_codes}"})
+                seq = [c for c in seq]
         phase = "idle"
         if not plan.get("no_transfer"):
             if state.get("late"):
@@ -478,6 +491,17 @@ def gen_cases(tier, seed):
             cases.append({"kind": "enum", "stride": 2 if tier == "quick" else 1,
                           "plan": {"verb": verb, "size": size, "connect": "before", "seed": seed, "followup": fu, "server_kwargs": kw,
                                    "dir_entries": 30 if verb in ("LIST", "MLSD") else 0}})
+    # a second ABOR, or another command, written in one piece with the ABOR
+    for tail in (["ABOR"], ["PWD"], ["ABOR", "PWD"]):
+        for verb, size, backend in ((("RETR", 3 * bs + 17, "async"), ("STOR", 3 * bs + 17, "memory")) if tier == "quick" else
+                                    (("RETR", 3 * bs + 17, "async"), ("STOR", 3 * bs + 17, "memory"), ("RETR", 70000, "memory"), ("STOR", 3 * bs + 17, "async"),
+                                     ("LIST", 0, "async"), ("MLSD", 0, "memory"), ("APPE", bs + 1, "async"))):
+            cases.append({"kind": "enum", "stride": 2 if tier == "quick" else 1,
+                          "plan": {"verb": verb, "size": size, "connect": "before", "seed": seed, "backend": backend, "followup": "pwd+retr",
+                                   "tail": tail, "dir_entries": 12 if verb in ("LIST", "MLSD") else 0,
+                                   **({"exec_delay": 0.0007} if backend == "async" else {"backend_delay": [0.0015]})}})
+    for tail in (["ABOR"], ["PWD"]):
+        cases.append({"kind": "single", "plan": {"verb": "RETR", "size": 0, "no_transfer": True, "followup": "pwd+retr", "seed": seed, "tail": tail}})
     # executor-based back end: the ABOR finds the worker inside a file operation that runs in a thread
     for verb, size in (("RETR", 3 * bs + 17), ("STOR", 3 * bs + 17)) if tier == "quick" else (("RETR", 3 * bs + 17), ("STOR", 3 * bs + 17), ("RETR", 70000), ("APPE", bs + 1), ("LIST", 0)):
         cases.append({"kind": "enum", "stride": 3 if tier == "quick" else 1,
